@@ -468,6 +468,15 @@ def check_c11(tier, replay=None):
             for d in ((1, 2, 3) if T else (1, 2)):
                 a = go_case(cases, f, d, "plain", w={1: 1, 2: 6, 3: 40}[d], why="search score on a position ...")
                 go_case(cases, flip_fen(f), d, "plain", flipof=a["id"], w={1: 1, 2: 6, 3: 40}[d], why="... and on its colour-flipped twin")
+        # symmetry of the search at large: no reference value needed, the twin must simply report the same score.  Positions with few
+        # pieces and pawns close to promotion for either colour (the capture/promotion resolution at the horizon differs per colour in the code)
+        light = [c for c in synth if cls[c]["nlegal"] > 0 and sum(ch.isalpha() for ch in c.split(" ")[0]) <= 9]
+        near = [c for c in light if any("P" in r for r in c.split("/")[1:2]) or "p" in c.split(" ")[0].split("/")[6]]
+        pool = rng.sample(near, min(len(near), 400 if T else 60)) + rng.sample(light, min(len(light), 400 if T else 60))
+        for f in pool:
+            d = rng.choice([1, 2, 3])
+            a = go_case(cases, f, d, "ab", mode="free", w=3, why="search score on a random light position ...")
+            go_case(cases, flip_fen(f), d, "ab", mode="free", flipof=a["id"], w=3, why="... and on its colour-flipped twin")
         for f in ["7k/5Q2/6K1/8/8/8/8/8 w - - 0 1", "6k1/5ppp/8/8/8/8/8/R3K3 w - - 0 1", "8/8/8/8/8/5k2/6q1/7K w - - 0 1", "kbK5/pp6/1P6/8/8/8/8/R7 w - - 0 1"]:
             a = go_case(cases, f, 3, "plain", w=40, why="mate in 1 preferred over longer mates; mated side gets mate -N")
             go_case(cases, flip_fen(f), 3, "plain", flipof=a["id"], w=40, why="colour-flipped twin")
